@@ -49,11 +49,14 @@ const (
 	KCallEnd
 	KExit
 	KUser
+	KCondWait
+	KCondSignal
+	KCondBroadcast
 )
 
 var kindNames = [...]string{"none", "start", "spawn", "send", "sent", "recv", "recvd", "close", "closed",
 	"lock", "unlock", "rlock", "runlock", "maprange", "select", "selected", "sync", "synced",
-	"call", "ret", "exit", "user"}
+	"call", "ret", "exit", "user", "condwait", "signal", "broadcast"}
 
 func (k Kind) String() string {
 	if int(k) < len(kindNames) {
@@ -309,11 +312,71 @@ func OnceDo(o *sync.Once, f func(), site int32) {
 	park(KUnlock, site, a, 0)
 }
 
+// CondWait models sync.Cond.Wait without using the real notify list: release
+// the lock, park as a waiter of c (runnable again only after a Signal or
+// Broadcast handled by the scheduler, FIFO like the real one), then
+// re-acquire the lock through the scheduler.
+func CondWait(c *sync.Cond, site int32) {
+	if cur == nil {
+		c.Wait()
+		return
+	}
+	switch l := c.L.(type) {
+	case *sync.Mutex:
+		l.Unlock()
+		park(KCondWait, site, uintptr(unsafe.Pointer(c)), uint64(uintptr(unsafe.Pointer(l))))
+		Lock(l, site)
+	case *sync.RWMutex:
+		l.Unlock()
+		park(KCondWait, site, uintptr(unsafe.Pointer(c)), uint64(uintptr(unsafe.Pointer(l))))
+		WLock(l, site)
+	default:
+		// unknown Locker: cannot be modelled; fall back to the real thing
+		park(KSyncPre, site, 0, 0)
+		c.Wait()
+		park(KSyncPost, site, 0, 0)
+	}
+}
+
+func CondSignal(c *sync.Cond, site int32) {
+	if cur == nil {
+		c.Signal()
+		return
+	}
+	c.Signal() // no real waiter exists in simulation; harmless
+	park(KCondSignal, site, uintptr(unsafe.Pointer(c)), 0)
+}
+
+func CondBroadcast(c *sync.Cond, site int32) {
+	if cur == nil {
+		c.Broadcast()
+		return
+	}
+	c.Broadcast()
+	park(KCondBroadcast, site, uintptr(unsafe.Pointer(c)), 0)
+}
+
 // PreSync / PostSync bracket sync operations that are not modelled in detail
 // (WaitGroup, Cond signalling, ...): they only add scheduling points so that
 // the goroutines involved park before running library code.
 func PreSync(site int32)  { park(KSyncPre, site, 0, 0) }
 func PostSync(site int32) { park(KSyncPost, site, 0, 0) }
+
+// After / After2 add a scheduling point after a non-blocking atomic operation
+// and pass its result(s) through.
+func After[T any](v T, site int32) T {
+	if cur != nil {
+		park(KSyncPost, site, 0, 0)
+	}
+	return v
+}
+
+func After2[A, B any](a A, b B, site int32) (A, B) {
+	if cur != nil {
+		park(KSyncPost, site, 0, 0)
+	}
+	return a, b
+}
 
 // ---- maps ----
 
